@@ -134,6 +134,20 @@ int main(int argc, char **argv) {
     vf::sample_str("thread-count enumeration: phase product on input " + systems[0].name + " for nt in {1,2,3,4,5,8,16,17,24,32}, outputs compared byte for byte with nt=1");
     if (vf::section("thr")) {
         for (auto &s : systems) kernels(s);
+        // a matrix with STORED zeros on some diagonal positions (rows 16, 32, 40 of a 64x64 tridiagonal matrix): whatever the scaled
+        // Gershgorin estimate makes of such rows, it is the same number for every thread count (where the chunk borders fall is not
+        // an input)
+        {
+            const size_t n = 64; std::vector<ptrdiff_t> ptr(1, 0), col; std::vector<double> val;
+            for (size_t i = 0; i < n; ++i) {
+                if (i) { col.push_back(i - 1); val.push_back(-1.0 - 0.125 * (i % 3)); }
+                col.push_back(i); val.push_back((i == 16 || i == 32 || i == 40) ? 0.0 : 2.5 + 0.25 * (i % 4));
+                if (i + 1 < n) { col.push_back(i + 1); val.push_back(-1.0); }
+                ptr.push_back((ptrdiff_t)col.size());
+            }
+            Crs Z(std::make_tuple(n, ptr, col, val));
+            bitwise_phase("gershgorin_stored_zero_diagonal", "thr|gershgorin_stored_zero_diagonal|tridiag64_z16_32_40", false, [&]{ double r = backend::spectral_radius<true>(Z, 0), q = backend::spectral_radius<false>(Z, 0); Blob b; b.putv(&r, 1); b.putv(&q, 1); return b; });
+        }
         vf::space("thread counts {1,2,3,4,5,8,16,17,24,32} x kernels/aggregation/transfer/relaxation phases x structured inputs");
     }
     if (vf::section("hier")) run_hier();
